@@ -183,6 +183,9 @@ def analyze(run: Any) -> dict[str, list[str]]:  # noqa: C901
                                         f"requests since {natives[T] - n0}, user uncancels {uncancels[T] - u0}")
         elif kind == "ncancel":
             natives[a[0]] += 1
+            # Task.cancel() raises the request count at once (keeps the "value on entry" of a scope
+            # entered before the next query exact)
+            last_cancelling[a[0]] = last_cancelling.get(a[0], 0) + 1
         elif kind == "exit":
             L, T, evc, result, raised, caught = a
             d = m.sc[L]
@@ -237,6 +240,7 @@ def analyze(run: Any) -> dict[str, list[str]]:  # noqa: C901
         elif kind == "uncancel":
             if a[1] > 0:
                 uncancels[a[0]] += 1
+                last_cancelling[a[0]] = a[1] - 1  # a[1] = cancelling() just before the call
         elif kind == "genter":
             G, T, L = a
             m.sc[L].update(key="g:", parent=m.task_scope.get(T), active=True, host=T, entered=True)
